@@ -801,6 +801,36 @@ func (f *Frame) lookupName(ctx *EvalCtx, name string) (Val, bool) {
 			best = d
 		}
 	}
+	// phis carrying the variable in blocks that dominate the evaluation point (e.g. the loop-exit value of a counter)
+	if ctx.at != nil {
+		var bestPhi *ssa.Phi
+		for _, b := range f.fn.Blocks {
+			if !(b == ctx.at || b.Dominates(ctx.at)) {
+				continue
+			}
+			if ctx.loop != nil && ctx.loop.Header == b {
+				continue
+			}
+			for _, in := range b.Instrs {
+				p, ok := in.(*ssa.Phi)
+				if !ok {
+					break
+				}
+				if p.Comment != name {
+					continue
+				}
+				if _, ok := f.vals[p]; !ok {
+					continue
+				}
+				if bestPhi == nil || bestPhi.Block().Dominates(b) {
+					bestPhi = p
+				}
+			}
+		}
+		if bestPhi != nil && (best == nil || (best.Block() != bestPhi.Block() && best.Block().Dominates(bestPhi.Block()))) {
+			return f.vals[bestPhi], true
+		}
+	}
 	if best != nil {
 		v := f.val(best.X)
 		if best.IsAddr {
